@@ -59,6 +59,17 @@ func c03ValStmts() []c03ValStmt {
 		{`== .name[1:3] "af"`, policy.Equal(".name[1:3]", literal.String("af")), func(s string, _ cid.Cid, _ bool) bool { return runeSlice(s, 1, 3) == "af" }},
 		{`not(== .name[-1:] "é")`, policy.Not(policy.Equal(".name[-1:]", literal.String("é"))), func(s string, _ cid.Cid, _ bool) bool { return runeSlice(s, -1, big) != "é" }},
 		{`== .name[-2:-1] "x"`, policy.Equal(".name[-2:-1]", literal.String("x")), func(s string, _ cid.Cid, _ bool) bool { return runeSlice(s, -2, -1) == "x" }},
+		// indexes written with leading zeros are decimal (xs = [0, 1, ..., 11]: xs[010] is 10, not 8; xs[-012] is xs[0])
+		{`not(== .xs[010] 10)`, policy.Not(policy.Equal(".xs[010]", literal.Int(10))), func(string, cid.Cid, bool) bool { return false }},
+		{`== .xs[010] 8`, policy.Equal(".xs[010]", literal.Int(8)), func(string, cid.Cid, bool) bool { return false }},
+		{`not(== .xs[-012] 0)`, policy.Not(policy.Equal(".xs[-012]", literal.Int(0))), func(string, cid.Cid, bool) bool { return false }},
+		{`== .xs[007:011] [7]`, policy.Equal(".xs[007:011]", nList(nInt(7))), func(string, cid.Cid, bool) bool { return false }},
+		// a key that is PRESENT with the value null is not an absent key (m = {role: null, tags: [null]})
+		{`== .m.role? "guest"`, policy.Equal(".m.role?", literal.String("guest")), func(string, cid.Cid, bool) bool { return false }},
+		{`not(== .m.role? null)`, policy.Not(policy.Equal(".m.role?", literal.Null())), func(string, cid.Cid, bool) bool { return false }},
+		{`like .m.role? "g*"`, policy.Like(".m.role?", "g*"), func(string, cid.Cid, bool) bool { return false }},
+		{`> .m["role"]? 0`, policy.GreaterThan(`.m["role"]?`, literal.Int(0)), func(string, cid.Cid, bool) bool { return false }},
+		{`all .m.tags (== . 1)`, policy.All(".m.tags", policy.Equal(".", literal.Int(1))), func(string, cid.Cid, bool) bool { return false }},
 	}
 }
 
@@ -85,7 +96,7 @@ func c03ValuesSub(dir string) *engine.Sub {
 		{"link(json,h0)", cid.NewCidV1(cid.DagJSON, cidPool[0].Hash()), true}, {"link(cbor,h1)", cidPool[1], true}, {"string-of-the-cid", cidPool[0], false}}
 	return &engine.Sub{
 		Name: name,
-		Rule: "chains whose policy holds one of " + fmt.Sprint(len(stmts)) + " statements - a link pinned with == (bare, negated, under any) and conditions on character slices of a string with negative bounds - on the leaf, the root or a single link; arguments: k (and the one-element list ks) = the pinned link, the same digest under raw / dag-json codec or CIDv0, another digest, or the CID's text; name = 10 strings with characters of 1 - 4 bytes; both APIs, delegations in memory and sealed + decoded; reference = CID identity / slices by character, independent of the real Match; non-trivial = all",
+		Rule: "chains whose policy holds one of " + fmt.Sprint(len(stmts)) + " statements - a link pinned with == (bare, negated, under any) and conditions on character slices of a string with negative bounds, on list indexes written with leading zeros (decimal), and on a key that is present with the value null (not absent) - on the leaf, the root or a single link; arguments: k (and the one-element list ks) = the pinned link, the same digest under raw / dag-json codec or CIDv0, another digest, or the CID's text; name = 10 strings with characters of 1 - 4 bytes; both APIs, delegations in memory and sealed + decoded; reference = CID identity / slices by character, independent of the real Match; non-trivial = all",
 		Bound: func(string) string {
 			return fmt.Sprintf("%d statements x 3 placements x %d links x %d strings x 2 APIs x 2 token forms", len(stmts), len(links), len(names))
 		},
@@ -134,6 +145,10 @@ func c03ValuesSub(dir string) *engine.Sub {
 				for _, l := range links {
 					a := args.New()
 					_ = a.Add("name", nm)
+					_ = a.Add("xs", []int{0, 1, 2, 3, 4, 5, 6, 7, 8, 9, 10, 11})
+					if err := a.Add("m", nMap(kv{"role", nNull()}, kv{"tags", nList(nNull())})); err != nil {
+						panic(err)
+					}
 					if l.isLink {
 						_ = a.Add("k", l.c)
 						_ = a.Add("ks", []cid.Cid{l.c})
